@@ -632,6 +632,15 @@ where
 {
     let c = T::from_model(t, v).ok_or_else(|| fail("harness", format!("carrier cannot hold {v:?}")))?;
     if !sem_eq(t, &m::pad(t, &c.to_model(t)), &m::pad(t, v), T::DE_UNORDERED) {
+        // A hashed / ordered collection of a type whose equality, hash or order the driver itself defines
+        // (CqlVarint, CqlVarintBorrowed, CqlTimeuuid): the model's elements are pairwise different numbers /
+        // version-1 timeuuids, so a collection that merges two of them loses data the caller asked to send
+        // (and would lose it on decoding as well) - the driver's doing, not the harness's.
+        let tn = std::any::type_name::<T>();
+        let keyed = ["HashSet<", "BTreeSet<", "HashMap<", "BTreeMap<"].iter().any(|k| tn.contains(k));
+        if keyed && ["CqlVarint", "CqlTimeuuid"].iter().any(|k| tn.contains(k)) {
+            return Err(fail("carrier:distinct-values-merged", format!("{tn} built from the pairwise different values {v:?} holds only {:?}", c.to_model(t))));
+        }
         return Err(fail("harness", format!("carrier conversion is not faithful: {v:?} -> {:?}", c.to_model(t))));
     }
     ser_check(&c, t, ct, "ser")?;
@@ -793,6 +802,10 @@ macro_rules! for_each_carrier {
         $cb!($($pre)* "HashSet<Uuid>", full, HashSet<uuid::Uuid>, [set(Uuid)]);
         $cb!($($pre)* "HashSet<&str>", full, HashSet<&str>, [set(Text)]);
         $cb!($($pre)* "HashSet<(i64, Option<bool>)>", full, HashSet<(i64, Option<bool>)>, [set(tup(&[BigInt, Boolean]))]);
+        $cb!($($pre)* "HashSet<CqlVarint>", full, HashSet<CqlVarint>, [set(Varint)]);
+        $cb!($($pre)* "HashSet<CqlVarintBorrowed>", full, HashSet<CqlVarintBorrowed>, [set(Varint)]);
+        $cb!($($pre)* "HashSet<CqlTimeuuid>", full, HashSet<CqlTimeuuid>, [set(Timeuuid)]);
+        $cb!($($pre)* "BTreeSet<CqlTimeuuid>", full, BTreeSet<CqlTimeuuid>, [set(Timeuuid)]);
         $cb!($($pre)* "BTreeSet<i64>", full, BTreeSet<i64>, [set(BigInt)]);
         $cb!($($pre)* "BTreeSet<String>", full, BTreeSet<String>, [set(Text)]);
         $cb!($($pre)* "BTreeSet<Vec<u8>>", full, BTreeSet<Vec<u8>>, [set(Blob)]);
@@ -802,6 +815,7 @@ macro_rules! for_each_carrier {
         $cb!($($pre)* "HashMap<i32, Vec<String>>", full, HashMap<i32, Vec<String>>, [map(Int, lst(Text)), map(Int, vct(Text, 2))]);
         $cb!($($pre)* "HashMap<Uuid, HashMap<i8, f64>>", full, HashMap<uuid::Uuid, HashMap<i8, f64>>, [map(Uuid, map(TinyInt, Double))]);
         $cb!($($pre)* "HashMap<&str, (i32, Option<f32>)>", full, HashMap<&str, (i32, Option<f32>)>, [map(Text, tup(&[Int, Float]))]);
+        $cb!($($pre)* "HashMap<CqlVarint, i32>", full, HashMap<CqlVarint, i32>, [map(Varint, Int)]);
         $cb!($($pre)* "BTreeMap<i64, f64>", full, BTreeMap<i64, f64>, [map(BigInt, Double)]);
         $cb!($($pre)* "BTreeMap<String, CqlVarint>", full, BTreeMap<String, CqlVarint>, [map(Text, Varint)]);
         $cb!($($pre)* "BTreeMap<i32, BTreeSet<i32>>", full, BTreeMap<i32, BTreeSet<i32>>, [map(Int, set(Int))]);
